@@ -346,7 +346,7 @@ def build_targets(ctx, tier):
     corp = vlib.run_impl('corpus.load', [None])[0]
     corp = [c for c in corp if 'src' in c]
     lim = os.environ.get('C20_LIMIT')
-    step = 1 if tier == 'thorough' else 4
+    step = 1 if tier == 'thorough' else 6
     progs = []
     for c in corp[::step]:
         progs.append({'src': c['src'], 'tag': f"{c['file']}:{c['idx']}",
@@ -357,9 +357,12 @@ def build_targets(ctx, tier):
     gens = [c20gen.gen_program(i) for i in range(40)]
     for g in gens:
         progs.append({'src': g['src'], 'tag': g['tag'], 'script': GEN_SCRIPT, 'kind': 'generated'})
-    if lim:
+    if lim:                                     # development aids only; never set by ./check
         n = int(lim)
         progs = progs[:n] + progs[-n:]
+    if os.environ.get('C20_ONLY'):
+        import re
+        progs = [p for p in progs if re.search(os.environ['C20_ONLY'], p['tag'])]
     targets = []
     for pi, p in enumerate(progs):
         for level, dbg in CONFIGS:
@@ -491,13 +494,13 @@ def main(tier, seed):
         other_level = dict(pub(t))
         other_level['level'] = (t['level'] + 1 + (ti % 2)) % 3
         other_level['debug'] = not t['debug']
-        for k, every in ((1, 1), (5, 2), (20, 8)):
+        for k, every in ((1, 1), (5, 4), (20, 16)):
             if ti % every != 0:
                 continue
             if k == 1:
                 hist = [other_level]
             else:
-                pool = [pub(targets[x]) for x in ctx.rng.sample(range(NT), k - 3)]
+                pool = [pub(targets[x]) for x in ctx.rng.sample(range(NT), min(k - 3, NT))]
                 hist = pool + [bad_ts[ti % len(bad_ts)], bad_ts[(ti + 5) % len(bad_ts)], other_level]
                 ctx.rng.shuffle(hist)
             steps = [{'t': h, 'run_pre': (j % 2 == 0)} for j, h in enumerate(hist)]
@@ -509,17 +512,17 @@ def main(tier, seed):
     hist_cases, hist_meta = cases, meta
 
     def judge_history(outs):
-      for (ti, k), case, out in zip(hist_meta, hist_cases, outs):
-        if not isinstance(out, list):
-            ctx.broken.append(f'correspondence history: worker failed: {str(out)[:300]}')
-            break
-        S.judge(f'history-k{k}', 'history', ti, targets[ti], out[-1],
-                {'fn': 'detfn.sequence', 'hashseed': '0', 'cwd': vlib.REPO, 'case': case})
-      for k in (1, 5, 20):
-        ctx.count(f'history-k{k}', sum(1 for _, kk in hist_meta if kk == k), ())
+        for (ti, k), case, out in zip(hist_meta, hist_cases, outs):
+            if not isinstance(out, list):
+                ctx.broken.append(f'correspondence history: worker failed: {str(out)[:300]}')
+                break
+            S.judge(f'history-k{k}', 'history', ti, targets[ti], out[-1],
+                    {'fn': 'detfn.sequence', 'hashseed': '0', 'cwd': vlib.REPO, 'case': case})
+        for k in (1, 5, 20):
+            ctx.count(f'history-k{k}', sum(1 for _, kk in hist_meta if kk == k), ())
     ctx.rule.append('history: fresh process that first compiles k other programs, then the target: k=1 (the same '
-                    'program at another level and debug setting; every target), k=5 (every 2nd target), k=20 (every '
-                    f'8th); histories of k>1 always contain two of {len(bad_ts)} programs that fail (syntax errors, '
+                    'program at another level and debug setting; every target), k=5 (every 4th target), k=20 (every '
+                    f'16th); histories of k>1 always contain two of {len(bad_ts)} programs that fail (syntax errors, '
                     'compile errors, internal errors) and the same program at another level; every other history '
                     'program is also run')
 
